@@ -9,6 +9,7 @@ package kcp
 import (
 	"container/heap"
 	"fmt"
+	"net"
 	"sort"
 	"sync"
 	"sync/atomic"
@@ -546,4 +547,10 @@ func VerifEntropyNearReseed(k uint64) bool {
 		return true
 	}
 	return false
+}
+
+// VerifServeConnOwned is ServeConn for a listener that owns its transport, as the listeners
+// created by ListenWithOptions do: Listener.Close then closes conn as well.
+func VerifServeConnOwned(block BlockCrypt, dataShards, parityShards int, conn net.PacketConn) (*Listener, error) {
+	return serveConn(block, dataShards, parityShards, conn, true)
 }
